@@ -109,6 +109,8 @@ def schedules(N, in_order, tier):
     if 2 * N <= maxsteps:
         out.append([2, 1])
         out.append([1, 2])
+        out.append([1, 0])      # a zero-temperature sweep after a positive one
+        out.append([0, 2])
     return out
 
 
@@ -260,8 +262,8 @@ def check_joint(case, st):
     st.states += leaves - 1
     st.extra["tapes_executed"] = st.extra.get("tapes_executed", 0) + runs
     if deviation[0]:
-        st.skipped["joint: draw discipline differs from the textbook one (%s)" % deviation[0][:60]] += 1
-        return
+        st.outcomes["joint: discipline deviation -> single-anneal configuration re-checked with the global menu"] += 1
+        return check_dist(dict(case, part="dist"), st)
     ref = mp.final_distribution(E, N, start, Ts, case["in_order"])
     if leaves > 1:
         st.nontrivial += 1
@@ -357,8 +359,10 @@ def check_distlocal(case, st):
     st.states += leaves - 1
     st.extra["tapes_executed"] = st.extra.get("tapes_executed", 0) + runs
     if deviation[0]:
-        st.skipped["distlocal: draw discipline differs from the textbook one (%s)" % deviation[0][:60]] += 1
-        return
+        # the local menu is only sound under the textbook draw discipline: redo this configuration with the global cut set,
+        # which assumes nothing about when the implementation draws
+        st.outcomes["distlocal: discipline deviation -> re-checked with the global menu"] += 1
+        return check_dist(dict(case, part="dist"), st)
     ref = mp.final_distribution(E, N, start, Ts, case["in_order"])
     got = np.zeros(1 << N)
     for a, p in dist.items():
